@@ -8,7 +8,7 @@
     [vm_compute] as a named instance obligation. *)
 From Coq Require Import List NArith Bool.
 From SV Require Import Text.Str Text.Prog Text.ProgProofs Text.Escape Text.EscapeProofs Text.EscPipeline Text.EscPipelineProofs
-  Text.Tokenizer Text.TokenizerProofs Text.HsTable Text.HsTableProofs.
+  Text.Tokenizer Text.TokenizerProofs Text.HsTable Text.HsTableProofs Text.GtTable Text.GtTableProofs.
 Import ListNotations.
 Open Scope N_scope.
 
@@ -107,6 +107,30 @@ Proof.
   intros T p o rows ml He Hp Hok Hr s f acc line rest Hf.
   rewrite (hs_rows_interp_is_model T o rows Hr), (pipeline_is_escape T p ml Hp s).
   exact (quoted_embedding T o He ml Hok s f acc line rest Hf).
+Qed.
+
+(** Round 4 - the whole property in one statement, for the three functions AS WRITTEN in the source: the pipeline [p] read from
+    [escape_text], the decision trees [G] read from [_get_token] / [_handle_comment] (Text/GtTable.v) and the rows read from
+    [_handle_string].  Hypotheses, all boolean and all discharged for today's source by named instance obligations:
+    escapes are enabled; the steps of [escape_text] in mode [ml] are one table substitution; the table conditions [tbl_ok]; the
+    double quote is not an operator; the trees and the rows are the model's.  Then for EVERY string [s], both modes, every
+    option vector, any number [n] of further calls and ANY cutting of the text into chunks, tokenizing  "escape_text(s)"  with the
+    tokenizer as written gives exactly one STRING token with value [s], then EOF for ever; the same for the text as one string. *)
+Theorem c02_property_as_written : forall T p o G rows ml,
+  allow_escapes o = true -> single_sub p ml = Some (excl T ml) -> tbl_ok T ml = true -> dq_not_operator T = true ->
+  trees_ok G = true -> hs_rows_ok rows = true ->
+  forall s n fuel chunks, (length s + 2 <= fuel)%nat -> concat chunks = DQ :: run_pipeline (esc_table T) p ml s ++ [DQ] ->
+  itokens_chk (gt_interp T o (steps_of G) (hs_interp T o (tb_of rows)) fuel) (S n) 1 false (chk_of_chunks chunks)
+  = RTok STRING s (1 + raw_lfs T ml s) false :: repeat (RTok EOF [] (1 + raw_lfs T ml s) false) n
+  /\ itokens_chk (gt_interp T o (steps_of G) (hs_interp T o (tb_of rows)) fuel) (S n) 1 false (chk_of_str (concat chunks))
+  = RTok STRING s (1 + raw_lfs T ml s) false :: repeat (RTok EOF [] (1 + raw_lfs T ml s) false) n.
+Proof.
+  intros T p o G rows ml He Hp Hok Hop HG Hr s n fuel chunks Hf Hc.
+  pose proof (hs_rows_interp_is_model T o rows Hr) as Hhs.
+  rewrite (gt_trees_trace_is_model_chunked T o G _ HG Hhs (S n) fuel 1 false (concat chunks) _ (R_of_chunks chunks)).
+  rewrite (gt_trees_trace_is_model_chunked T o G _ HG Hhs (S n) fuel 1 false (concat chunks) _ (R_of_str (concat chunks))).
+  rewrite Hc, (pipeline_is_escape T p ml Hp s).
+  split; exact (escape_tokenize_inverse T o He ml Hok Hop s n fuel 1 false Hf).
 Qed.
 
 (** The row condition is not decoration: a table whose LF rows ignore the flag is rejected, and its interpretation
